@@ -567,7 +567,24 @@ class Stream(Iterable[Elem]):
                 self._initializer = z
                 return z
 
-        return self.map(Accumulator())
+        class Accumulate:
+            # Start from `initializer` in every iteration of the stream.
+            # (This method is shared with `AsyncStream`.)
+            def __init__(self, instream):
+                self._instream = instream
+
+            def __iter__(self):
+                func = Accumulator()
+                for x in self._instream:
+                    yield func(x)
+
+            async def __aiter__(self):
+                func = Accumulator()
+                async for x in self._instream:
+                    yield func(x)
+
+        self.streamlets.append(Accumulate(self.streamlets[-1]))
+        return self
 
     def buffer(self, maxsize: int) -> Self:
         """
